@@ -22,6 +22,7 @@ type gPod struct {
 	ns, name, ip, phase string
 	ready, deleting     bool
 	labels              []string
+	extra               []string // labels and pseudo labels fixed for the life of the pod (hostname/subdomain, istio-locality, network)
 	sa, node            string
 }
 
@@ -62,6 +63,7 @@ type genState struct {
 	nsObj  map[string]string // namespace objects: name -> annotation token
 	podInWindow bool         // a pod was written inside the current hold window
 	portsSet map[string]bool
+	mcs      map[string]bool
 }
 
 var (
@@ -84,7 +86,8 @@ func sortedNames[V any](m map[string]V) []string {
 }
 
 func (g *genState) podLine(p *gPod) {
-	g.emit("pod", p.ns, p.name, wire.Enc(p.ip), p.phase, wire.B(p.ready), wire.B(p.deleting), wire.EncList(p.labels), p.sa, wire.Enc(p.node))
+	g.emit("pod", p.ns, p.name, wire.Enc(p.ip), p.phase, wire.B(p.ready), wire.B(p.deleting),
+		wire.EncList(append(append([]string{}, p.labels...), p.extra...)), p.sa, wire.Enc(p.node))
 }
 
 func (g *genState) svcLine(s *gSvc) {
@@ -108,6 +111,8 @@ func (g *genState) slicePorts(s *gSlice) []string {
 		g.ports[k] = wire.Pick(g.r, epPorts)
 		if g.r.Chance(1, 15) {
 			g.ports[k] = nil // a slice without ports: no endpoints, the pods are still looked up
+		} else if g.wide && g.r.Chance(1, 12) {
+			g.ports[k] = wire.Pick(g.r, [][]string{{"nil:8080"}, {"http:0"}}) // nil port name / nil port number
 		}
 	}
 	return g.ports[k]
@@ -157,6 +162,10 @@ func (g *genState) mkEp(ns, addr string) gEp {
 	if addr == "10.0.0.3" && r.Chance(1, 3) {
 		// no targetRef at a pod address: the pod is looked up by IP in the pod cache (only p3 ever holds 10.0.0.3
 		// in a namespace, so the lookup is unambiguous)
+		if g.wide && r.Chance(1, 3) {
+			// a targetRef whose Kind is not Pod (it names a pod all the same): looked up by IP like no targetRef
+			e.target = "!" + ns + ":" + wire.Pick(r, []string{"p1", "p2", "p3"})
+		}
 	} else if strings.HasPrefix(addr, "10.0.0.") {
 		switch {
 		case owner != nil && r.Chance(7, 8):
@@ -202,6 +211,10 @@ func (g *genState) opPod() {
 	p := g.pods[k]
 	if p == nil {
 		p = &gPod{ns: ns, name: name, phase: "P", labels: wire.Pick(r, labelSets), sa: wire.Pick(r, []string{"sa1", "sa2"})}
+		if g.wide && r.Chance(1, 5) {
+			p.extra = wire.Pick(r, [][]string{{"@sub=sd"}, {"@host=h1", "@sub=sd"}, {"istio-locality=r9.z9.s9"}, {"istio-locality=r8/z8"},
+				{"topology.istio.io/network=n2"}})
+		}
 		if r.Chance(1, 2) {
 			p.node = wire.Pick(r, []string{"k1", "k2"})
 		}
@@ -293,6 +306,22 @@ func (g *genState) opSvc() {
 	if g.wide && r.Chance(1, 3) {
 		s.flags = wire.Pick(r, [][]string{{"drain"}, {"td"}, {"drain", "td"}, nil})
 	}
+	// exported to nobody (annotation networking.istio.io/exportTo: "~") and the service-accounts annotation, set and cleared again
+	for _, fl := range []string{"x", "sa"} {
+		if g.wide && r.Chance(1, 6) {
+			if has(s.flags, fl) {
+				f := []string{}
+				for _, x := range s.flags {
+					if x != fl {
+						f = append(f, x)
+					}
+				}
+				s.flags = f
+			} else {
+				s.flags = append(append([]string{}, s.flags...), fl)
+			}
+		}
+	}
 	g.svcLine(s)
 }
 
@@ -306,6 +335,18 @@ func (g *genState) opSlice() {
 	r := g.r
 	ns := wire.Pick(r, g.nss)
 	svc := wire.Pick(r, []string{"a", "a", "b"})
+	if g.wide && r.Chance(1, 25) {
+		// a slice with the MCS service-name label: invisible to the controller; created and deleted, the label never edited
+		k := ns + "/" + svc + "-m1"
+		if g.mcs[k] {
+			delete(g.mcs, k)
+			g.emit("delslice", ns, svc+"-m1")
+		} else {
+			g.mcs[k] = true
+			g.emit("slice", ns, svc+"-m1", "M:"+svc, "v4", "http:8080", "10.0.2.9/t/t/f/-")
+		}
+		return
+	}
 	name := svc + "-" + wire.Pick(r, []string{"s1", "s2"})
 	k := ns + "/" + name
 	s := g.slices[k]
@@ -410,6 +451,11 @@ func (g *genState) opNode() {
 	}
 	n.region = wire.Pick(r, []string{"r1", "r2", ""})
 	n.zone = wire.Pick(r, []string{"z1", ""})
+	if g.wide && r.Chance(1, 3) {
+		// legacy failure-domain labels, subzone
+		n.region = wire.Pick(r, []string{"L:r1", "r2", ""})
+		n.zone = wire.Pick(r, []string{"L:z1", "z1/s1", "/s2", "L:z1/s1"})
+	}
 	g.nodeLine(n)
 }
 
@@ -422,7 +468,7 @@ func gen(stream string, seed uint64, n int, outp string) {
 		out.Line("case", strconv.Itoa(c), stream)
 		g := &genState{r: r, out: out, pods: map[string]*gPod{}, slices: map[string]*gSlice{}, svcs: map[string]*gSvc{},
 			nodes: map[string]*gNode{}, ports: map[string][]string{}, nss: []string{"n1"}, nsObj: map[string]string{},
-			portsSet: map[string]bool{}}
+			portsSet: map[string]bool{}, mcs: map[string]bool{}}
 		if r.Chance(1, 6) {
 			g.nss = []string{"n1", "n1", "n2"}
 		}
